@@ -86,8 +86,14 @@ def build(release=False):
     return os.path.join(HARNESS, "target", "release" if release else "debug", "sv")
 
 
-def sv(binary, args, timeout=1200, ok_codes=(0,)):
+def sv(binary, args, timeout=1200, ok_codes=(0,), ctx=None):
+    """Run a harness driver. With ctx given, a crash of the driver process (abort, segfault, stack overflow, panic that
+    escaped) is DATA about the code under test: it is recorded as a violation and the partial trace is still validated."""
     r = subprocess.run([binary] + [str(a) for a in args], stdout=subprocess.PIPE, stderr=subprocess.PIPE, text=True, timeout=timeout)
+    if ctx is not None and (r.returncode < 0 or r.returncode in (101, 134, 139)):
+        ctx.violations.append({"key": "process-died/%s" % args[0], "detail": "the driver process running the real code died with status %s (abort / segfault / stack overflow): %s"
+                               % (r.returncode, r.stderr[-300:].replace("\n", " ")), "event": {"args": [str(a) for a in args]}})
+        return r.stdout
     if r.returncode not in ok_codes:
         raise ToolError("harness %s exited %s:\n%s\n%s" % (" ".join(map(str, args)), r.returncode, r.stdout[-2000:], r.stderr[-4000:]))
     return r.stdout
